@@ -116,10 +116,10 @@ m('c16-importer-reuses-name', 'C16', 'kernpy/core/pitch_models.py',
   "        name = f\"{pitch}{accidentals}\"\n        return name, octave",
   "        name = f\"{pitch}{accidentals}\" if accidentals or self.name is None or self.name[0] != pitch else self.name\n        return name, octave",
   'needs: a shared importer: a spelling with accidental, then the same letter without')
-m('c16-accidentals-first-char-only', 'C16', 'kernpy/core/pitch_models.py',
-  "        accidentals_output = len(accidentals) * accidentals[0] if len(accidentals) > 0 else ''",
-  "        accidentals_output = min(len(accidentals), 2) * accidentals[0] if len(accidentals) > 0 else ''",
-  'needs: a triple alteration')
+m('c16-high-octave-drops-accidentals', 'C16', 'kernpy/core/pitch_models.py',
+  "            return f\"{name.lower() * (pitch.octave - HumdrumPitchExporter.C4_OCATAVE + 1)}{accidentals_output}\"",
+  "            return f\"{name.lower() * (pitch.octave - HumdrumPitchExporter.C4_OCATAVE + 1)}{accidentals_output if pitch.octave < 9 else ''}\"",
+  'needs: octave 9 with an alteration')
 m('c16-export-memo-by-id', 'C16', 'kernpy/core/pitch_models.py',
   "    def export_pitch(self, pitch: AgnosticPitch) -> str:\n        accidentals = ''.join([c for c in pitch.name if c in ['-', '+']])\n        accidentals = accidentals.replace('+', '#')",
   "    def export_pitch(self, pitch: AgnosticPitch) -> str:\n        if self.pitch is not None and self.pitch[0] == hash(pitch.octave) and self.pitch[1][0] == pitch.name[0]:\n            return self.pitch[2]\n        accidentals = ''.join([c for c in pitch.name if c in ['-', '+']])\n        accidentals = accidentals.replace('+', '#')",
@@ -145,9 +145,10 @@ m('c20-ekern-header-after-strip', 'C20', 'kernpy/core/exporter.py',
   "    content = ekern_content.replace(\"**ekern\", \"**kern\")  # TODO Constante según las cabeceras\n    content = content.replace(TOKEN_SEPARATOR, \"\")\n    content = content.replace(DECORATION_SEPARATOR, \"\")",
   "    content = ekern_content.replace(TOKEN_SEPARATOR, \"\")\n    content = content.replace(DECORATION_SEPARATOR, \"\")\n    content = content.replace(\"**ekern\\t\", \"**kern\\t\").replace(\"**ekern\\n\", \"**kern\\n\")  # TODO Constante según las cabeceras",
   'needs: an ekern file whose header line ends with CRLF or has no final newline (single header-only line)') if False else None
-m('c20-cli-wrong-suffix', 'C20', 'kernpy/__main__.py',
-  "        out = file.with_suffix(\".ekrn\")\n        try:\n            kern_to_ekern(str(file), str(out))", "        out = file.with_suffix(\".ekrn\") if file.suffix == '.krn' else file.with_suffix(\".ekern\")\n        try:\n            kern_to_ekern(str(file), str(out))",
-  'needs: directory mode with a .kern input')
+m('c20-cli-suffix-appended-for-dotted-names', 'C20', 'kernpy/__main__.py',
+  "        out = file.with_suffix(\".ekrn\")\n        try:\n            kern_to_ekern(str(file), str(out))",
+  "        out = file.with_suffix(\".ekrn\") if file.name.count('.') < 2 else Path(str(file) + \".ekrn\")\n        try:\n            kern_to_ekern(str(file), str(out))",
+  'needs: directory mode with an input whose name has several dots (x.y.krn)')
 m('c20-rglob-always', 'C20', 'kernpy/__main__.py',
   "        if recursive:\n            files.extend(directory.rglob(pattern))", "        if recursive or pattern.endswith('.kern'):\n            files.extend(directory.rglob(pattern))",
   'needs: non-recursive directory mode with a nested .kern file')
